@@ -1,14 +1,20 @@
 #!/bin/sh
-# tools/mutest.sh <patch.diff> <ID> [tier]  — apply a seeded change to /repo, run the check, undo.
+# tools/mutest.sh <patch.diff> <ID> [tier]  — run a check against a seeded change WITHOUT touching /repo:
+# the change is applied in a scratch git worktree of /repo's HEAD, and the check is pointed at that tree
+# (REPO_DIR) through a scratch copy of the harness module whose go.mod replaces goldmark by the scratch tree
+# (HARNESS_DIR). Evidence of such runs goes to .work/, never to /verif/evidence.
 patch="$1"; id="$2"; tier="${3:-quick}"
-cd /repo || exit 2
-git diff --quiet || { echo "/repo not clean"; exit 2; }
-git apply "$patch" || { echo "patch does not apply"; exit 2; }
+S=/verif/.work/mut-$$; mkdir -p $S
+W=$S/repo
+git -C /repo worktree add -q --detach $W HEAD || exit 2
+cleanup() { git -C /repo worktree remove --force $W 2>/dev/null; rm -rf $S; }
+if ! git -C $W apply "$patch" 2>$S/apply.err; then echo "patch does not apply"; cat $S/apply.err; cleanup; exit 2; fi
+cp -r /verif/harness $S/harness
+sed -i "s#=> /repo#=> $W#" $S/harness/go.mod
 cd /verif
-GOSYM_EVIDENCE_DIR=/verif/.work/mut-evidence ./check "$id" --tier "$tier" > /tmp/mutest.$$.log 2>&1
+REPO_DIR=$W HARNESS_DIR=$S/harness GOSYM_EVIDENCE_DIR=$S/evidence ./check "$id" --tier "$tier" > $S/log 2>&1
 rc=$?
-git -C /repo checkout -- . ; git -C /repo clean -fdq
-echo "rc=$rc"; grep -c "^VIOLATION" /tmp/mutest.$$.log | sed 's/^/violations=/'
-grep -E "^  (panic|assert|monitor|budget)|^CHECK-BROKEN|^ENGINE|^INCOMPLETE|^C[0-9]+ (quick|thorough)" /tmp/mutest.$$.log | head -${MUTEST_LINES:-8}
-rm -f /tmp/mutest.$$.log
+echo "rc=$rc"; grep -c "^VIOLATION" $S/log | sed 's/^/violations=/'
+grep -E "^  (panic|assert|monitor|budget)|^CHECK-BROKEN|^ENGINE|^INCOMPLETE|^C[0-9]+ (quick|thorough)" $S/log | head -${MUTEST_LINES:-8}
+cleanup
 exit $rc
